@@ -1,8 +1,11 @@
 #!/bin/bash
-# offline: contracts library beside the repository's interpreter, git-ignored
+# Offline setup: nothing has to be built or installed. The checks run on /venv/bin/python (rally's own interpreter, esrally installed
+# editable from /repo) and use only the standard library plus what rally already depends on. This script verifies that.
 set -e
 cd "$(dirname "$(readlink -f "$0")")"
-if [ ! -d .deps/icontract ]; then
-  PIP_NO_INDEX=1 /venv/bin/pip install --quiet --no-index --find-links /opt/veriftools/wheels --no-deps --target .deps icontract asttokens >/dev/null
-fi
-/venv/bin/python -c "import sys; sys.path.insert(0, '.deps'); import icontract, esrally; print('setup ok: icontract', icontract.__version__, 'esrally', esrally.__file__)"
+/venv/bin/python - <<'PY'
+import sys
+assert sys.version_info >= (3, 12), "sys.monitoring (fine preemption in C07) needs Python >= 3.12"
+import esrally, thespian, aiohttp, elasticsearch, elastic_transport, ijson, jinja2, jsonschema, zstandard
+print("setup ok: esrally from", esrally.__file__, "python", sys.version.split()[0])
+PY
